@@ -1144,7 +1144,7 @@ HLPread(accrec_t *access_rec, int32 length, void *datap)
         }
         else { /*if block is missing, fill this part of buffer with zero's */
             memset(data, 0, (size_t)remaining);
-            bytes_read += nbytes;
+            bytes_read += remaining;
         }
 
         /* move variables for the next block */
